@@ -116,6 +116,13 @@ func mmSrc(ns []MNode) string {
 			sb.WriteString("{{ " + n.E.Src() + " }}")
 		case "loopprobe":
 			sb.WriteString("{{ forloop." + n.Field + " }}")
+		case "plainregion":
+			// tags with a body that are no scope: what is bound inside stays bound behind them
+			open, end := "{% autoescape on %}", "{% endautoescape %}"
+			if n.Name == "spaceless" {
+				open, end = "{% spaceless %}", "{% endspaceless %}"
+			}
+			sb.WriteString(open + mmSrc(n.Body) + end)
 		case "with":
 			sb.WriteString("{% with")
 			for _, p := range n.Pairs {
@@ -301,6 +308,8 @@ func valToM(v Val) any {
 			out = append(out, e.Str())
 		}
 		return out
+	case v.K == "strStr": // (only iterated: the characters of the string itself, whatever String() prints)
+		return v.Str()
 	case v.K == "anys":
 		out := []any{}
 		for _, e := range v.E {
@@ -698,6 +707,10 @@ func (ip *mInterp) run(ns []MNode, s *mScope, sb *strings.Builder) *mErr {
 		case "loopprobe":
 			li, _ := ip.lookup(s, "forloop").(*mLoop) // inside an included file the includer's forloop is a context entry
 			sb.WriteString(mPrint(mLoopField(li, n.Field)))
+		case "plainregion":
+			if e := ip.run(n.Body, s, sb); e != nil {
+				return e
+			}
 		case "with":
 			c := s.child()
 			for _, p := range n.Pairs {
@@ -982,7 +995,6 @@ func mmEngineSeq(root []MNode, files map[string][]MNode, globals Val, ctxs []Val
 	}
 	return outs, errs, nil
 }
-
 
 // meMentions: does the expression name one of the given names?
 func meMentions(e *ME, names map[string]bool) bool {
